@@ -158,6 +158,15 @@ pub fn install_draws(seed: u64) {
     })));
 }
 
+/// draws from a PRNG owned by the caller (several nodes in one case: each keeps its own sequence)
+pub fn install_draws_shared(rng: Arc<Mutex<Rng>>) {
+    anytls_rs::verif::set_draw_controller(Some(Arc::new(move |min: i64, max: i64| {
+        let r = rng.lock().unwrap().next();
+        let span = (max - min + 1) as u64;
+        Some(min + (r % span) as i64)
+    })));
+}
+
 pub fn sort_settings(data: &[u8]) -> Vec<u8> {
     let mut lines: Vec<&[u8]> = data.split(|b| *b == b'\n').collect();
     lines.sort();
